@@ -376,6 +376,18 @@ let () =
            print_endline (show_res (lex_show_text (cstring_of_string (untext hx))))
        | ["parse_text"; hx] ->
            print_endline (show_res (parse_show_text (cstring_of_string (untext hx))))
+       | [m; "add_expr_lr"; hx] when String.length m > 1 && m.[0] = 'a' ->
+           let m = nat_of_int (int_of_string (String.sub m 1 (String.length m - 1))) in
+           let (w', r) = astep_expr_lr !aworld m (cstring_of_string (untext hx)) in
+           aworld := w';
+           print_endline (if !full then show_res r ^ "\t" ^ show_adigest (adigest (aworld_get w' m))
+                          else show_res r)
+       | [m; "add_expr_lr"; hx] ->
+           let m = nat_of_int (int_of_string m) in
+           let (w', r) = step_expr_lr !world m (cstring_of_string (untext hx)) in
+           world := w';
+           print_endline (if !full then show_res r ^ "\t" ^ show_digest (digest (world2_get w' m))
+                          else show_res r)
        | [m; "add_expr_text"; hx] when String.length m > 1 && m.[0] = 'a' ->
            let m = nat_of_int (int_of_string (String.sub m 1 (String.length m - 1))) in
            let (w', r) = astep_expr_text !aworld m (cstring_of_string (untext hx)) in
